@@ -184,6 +184,14 @@ def run(ck: Checker):
     # ------------------------------------------------------------------ C04-11
     ck.rule('C04-11', 'an input that cannot be pickled fails alone: in the thread that moves accepted inputs into the first process stage, the put that pickles the input is inside a try whose handler for Exception stays in the loop and answers that very request (its id, the wrapped error) on the output queue (EXITS+AGREE)', minimum=1)
     check_onboarding(ck, 'C04-11')
+    # ------------------------------------------------------------------ C04-12
+    from . import server as _server
+
+    ck.rule('C04-12', 'every other request is still answered: the gather loop, which serves all requests, cannot be ended by one request — not by a future its caller cancelled concurrently, not by an unknown id (the C07-1 / C07-2 obligations)', minimum=4)
+    for name_ in _server.SERVERS:
+        s_ = _server.discover(ck.repo, name_)
+        _server.check_race_free_resolution(ck, 'C04-12', s_)
+        _server.check_unknown_id_tolerated(ck, 'C04-12', s_)
     # ------------------------------------------------------------------ C04-8
     from . import c02
 
